@@ -565,6 +565,8 @@ class ScrollBar(WidgetDecoration[WrappedWidget]):
         top_height = int((maxrow - thumb_height) * top_weight)
         if top_height == 0 and top_weight > 0:
             top_height = 1
+            # In a one-row bar there is no room for trough and thumb: the thumb yields, so the parts still sum to maxrow
+            thumb_height = min(thumb_height, maxrow - top_height)
 
         # Bottom part is remaining space
         bottom_height = maxrow - thumb_height - top_height
